@@ -36,6 +36,10 @@ Collect(obs) == /\ st.k < MaxCycles
 DoRecord == \E a \in Attrs(Cfg), j \in 1..NV(Cfg) : Rec(a, j) /\ hist' = Append(hist, act')
 DoRegister == \E c \in 1..(Cfg.ncb - 1) : Reg(c) /\ hist' = Append(hist, act')
 DoUnregister == \E c \in 1..(Cfg.ncb - 1) : Unreg(c) /\ hist' = Append(hist, act')
+(* A collection point is atomic: the SDK serialises the collections of one reader     *)
+(* (pipeline lock), so two overlapping Collect calls are two consecutive DoCollectPoint *)
+(* steps with no operation in between, in one of the two orders (see TOver in         *)
+(* Trace_Temporality).                                                                *)
 DoCollectPoint == \E obs \in Tables : Collect(obs) /\ hist' = Append(hist, act')
 Next == DoRecord \/ DoRegister \/ DoUnregister \/ DoCollectPoint
 Spec == Init /\ [][Next]_vars
@@ -54,8 +58,11 @@ VBag(b) == CASE Cfg.agg = "sum" -> <<BagS(Cfg, b), b.last # 0>>
              [] Cfg.agg = "last" -> <<b.last>>
              [] OTHER -> <<b.cnt>>
 VBags(f) == [a \in Attrs(Cfg) |-> VBag(f[a])]
+(* For the wide exponential configurations the ORDER of the measurements matters to  *)
+(* an implementation (when it re-scales, what its bucket memory held before): there  *)
+(* every operation sequence is a state of its own.                                   *)
 View == <<st.k, st.reg, VBags(st.cur), st.prev, VBags(st.tot), VBags(st.totS), st.runV, VBags(st.runB),
-          st.dstart, nops>>
+          st.dstart, nops, IF Cfg.wide THEN hist ELSE <<>>>>
 EmitEdge == act'.op = "Collect" => PrintT("EDGE " \o ToJson([path |-> hist, act |-> act', k |-> st'.k]))
 
 (* the statement on the model, as an action property: evaluated on every explored   *)
